@@ -153,6 +153,9 @@ type LinkCfg struct {
 	A, B           string
 	FieldA, FieldB string
 	RefCounted     bool
+	// BackToParent (A is a child store): B's symbol is declared against A's parent store, as a schema does that
+	// first had the link on the parent type and later moved the collection to the child type
+	BackToParent bool `json:"backToParent,omitempty"`
 }
 
 type WorldCfg struct {
@@ -346,7 +349,11 @@ func NewWorld(cfg WorldCfg) (*World, error) {
 		symA := a.AddFkSetSymbol(lc.FieldA, b)
 		symB := symA
 		if !(lc.A == lc.B && lc.FieldA == lc.FieldB) {
-			symB = b.AddFkSetSymbol(lc.FieldB, a)
+			var linked boltz.ConfigurableStore = a
+			if cc, isChild := w.KidCfgs[lc.A]; isChild && lc.BackToParent {
+				linked = w.Stores[cc.Parent]
+			}
+			symB = b.AddFkSetSymbol(lc.FieldB, linked)
 		}
 		if lc.RefCounted {
 			w.RcLinks[lc.A+"."+lc.FieldA] = a.AddRefCountedLinkCollection(symA, symB)
